@@ -94,10 +94,18 @@ def apply_set_attr(obj, idx, attr, cls=None):
 def gen_plan(rng, run_index, tier, opts):
     env = specs.Env(rng, max_T=36)
     env.allow_date_only_zone = True
+    env.unicode_names = rng.random() < 0.2
+    env.special_floats = rng.random() < 0.3
+    if rng.random() < 0.25:
+        env.arr_T = -1          # set to the step count of the home grid below: parameters as plain per-step arrays
     if rng.random() < 0.12:
         env.freqs = ["MS", "W-MON"]        # calendar grids (the grid's frequency string goes through the JSON too)
     w = env.world
+    want_arr = getattr(env, "arr_T", None)
+    env.arr_T = None
     g0 = specs.gen_grid(env)
+    if want_arr:
+        env.arr_T = specs.grid_info(w, g0).T
     f0 = w["grids"][g0]["freq"]
     # probe grids: naive, aware, other frequency (same date range)
     probes = [g0]
@@ -187,7 +195,9 @@ def gen_plan(rng, run_index, tier, opts):
             elif r < 0.18:
                 ld["fault"] = "short_read"
                 ld["frac"] = round(rng.choice([rng.random(), 1.0, 0.98]), 3)
-            elif r < 0.34 and target[0] == "P" and not mip:
+            elif r < 0.28:
+                ld["path"] = "file_text"     # the user reads the file himself (utf-8 text) and hands the text to load_from_json
+            elif r < 0.44 and target[0] == "P" and not mip:
                 if own_grid and rng.random() < 0.5:
                     ld["path"] = "run_from_json"
                 else:
@@ -539,6 +549,11 @@ class Run:
                     except Exception as e2:
                         out = ("raise", type(e2).__name__)
                     ran = rg
+                elif path == "file_text":
+                    with d.open("obj.json", "r", encoding="utf-8") as fh:
+                        txt = fh.read()
+                    loaded = eao.serialization.load_from_json(txt)
+                    self.probes["file_loaded_as_text"] = self.probes.get("file_loaded_as_text", 0) + 1
                 else:
                     loaded = eao.serialization.load_from_json(file_name="obj.json")
             except Exception as e:
